@@ -284,8 +284,16 @@ fn sub_case<C: Suite>(ctx: &mut Ctx, keys: &Keys<C>, holders: &[Id<C>], msg: &[u
 
     // (d) interpolating k < t shares does not give the key
     let honest_kps: Vec<KeyPackage<C>> = holders.iter().map(|i| keys.kps[i].clone()).collect();
-    let r = frost::keys::reconstruct(&honest_kps);
-    ensure!(ctx, matches!(r, Err(Error::IncorrectNumberOfShares)), "C03/reconstruct-does-not-refuse", "reconstruct with {} < t={} honest key packages returned {:?}", k, t, r.as_ref().map(|_| "Ok(key)"));
+    // (the statement only demands that the result is not the group secret; `reconstruct` documents its
+    // size check as best effort, so either a refusal or a *different* key is fine)
+    match frost::keys::reconstruct(&honest_kps) {
+        Err(_) => ctx.label("reconstruct:refused"),
+        Ok(sk) => {
+            ctx.label("reconstruct:different-key");
+            let g = gen_::<C>() * sk.to_scalar();
+            ensure!(ctx, g != vk.to_element() && el_neg::<C>(g) != vk.to_element(), "C03/sub-threshold-reconstruct", "reconstruct over {} < t={} honest key packages yields the group secret", k, t);
+        }
+    }
     let lying: Vec<KeyPackage<C>> = holders.iter().map(|i| lying_kp::<C>(&keys.kps[i], lied.max(1).min(k as u16))).collect();
     if let Ok(sk) = frost::keys::reconstruct(&lying) {
         let g = gen_::<C>() * sk.to_scalar();
